@@ -4,7 +4,6 @@ import (
 	"context"
 	"errors"
 	"io"
-	"math/rand"
 	"sort"
 	"sync"
 	"sync/atomic"
@@ -508,8 +507,7 @@ func (this *Dataset) getSearchQueryNodes() map[uint64][]uuid.UUID {
 
 	result := make(map[uint64][]uuid.UUID)
 	for _, partition := range this.partitions {
-		partitionNodeIds := partition.nodeIds()
-		nodeId := partitionNodeIds[rand.Intn(len(partitionNodeIds))]
+		nodeId := partition.randomNodeId()
 		if _, exists := result[nodeId]; !exists {
 			result[nodeId] = make([]uuid.UUID, 0)
 		}
